@@ -596,3 +596,305 @@ func ruleA3DISTINCT(p *Program, r *Reporter) {
 		r.Anchor(id, fmt.Sprintf("mutation helpers: %d returns, expected >= 10", n))
 	}
 }
+
+// ruleX7: validate, then write — in Create/Update/Delete no error can be returned
+// once the first index or row entry has been written (an error leaves the cache unchanged).
+func ruleX7(p *Program, r *Reporter) {
+	const id = "X7"
+	idx := p.Field("cache", "RowCache", "indexes")
+	rows := p.Field("cache", "RowCache", "cache")
+	if idx == nil || rows == nil {
+		r.Anchor(id, "cache.RowCache.{indexes,cache}")
+		return
+	}
+	n := 0
+	for _, name := range []string{"Create", "Update", "Delete"} {
+		fn := p.Fn("cache", "RowCache", name)
+		if fn == nil {
+			r.Anchor(id, "cache.(*RowCache)."+name)
+			continue
+		}
+		region := p.PrivateRegion(fn)
+		writes := func(g *ssa.Function) bool {
+			for _, b := range g.Blocks {
+				for _, ins := range b.Instrs {
+					var target ssa.Value
+					switch x := ins.(type) {
+					case *ssa.MapUpdate:
+						target = x.Map
+					case *ssa.Call:
+						if bi, ok := x.Call.Value.(*ssa.Builtin); ok && bi.Name() == "delete" {
+							target = x.Call.Args[0]
+						}
+					}
+					if target != nil {
+						if f := rootField(target, 0); (f == idx || f == rows) && !baseOfFieldIsLocal(target) {
+							return true
+						}
+					}
+				}
+			}
+			return false
+		}
+		// write events in the operation: direct writes, or calls to private helpers that write
+		var events []ssa.Instruction
+		for _, b := range fn.Blocks {
+			for _, ins := range b.Instrs {
+				switch x := ins.(type) {
+				case *ssa.MapUpdate:
+					if f := rootField(x.Map, 0); (f == idx || f == rows) && !baseOfFieldIsLocal(x.Map) {
+						events = append(events, ins)
+					}
+				case *ssa.Call:
+					if bi, ok := x.Call.Value.(*ssa.Builtin); ok && bi.Name() == "delete" {
+						if f := rootField(x.Call.Args[0], 0); f == idx || f == rows {
+							events = append(events, ins)
+						}
+						continue
+					}
+					if g := x.Call.StaticCallee(); g != nil && g != fn && region[g] && writes(g) {
+						events = append(events, ins)
+					}
+				}
+			}
+		}
+		fc := newFlowCtx(fn)
+		for _, b := range fn.Blocks {
+			ret, ok := b.Instrs[len(b.Instrs)-1].(*ssa.Return)
+			if !ok || isRecoverBlock(b) || !returnsNonNilError(b) {
+				continue
+			}
+			n++
+			var after ssa.Instruction
+			for _, w := range events {
+				if fc.canFollow(w, ret) {
+					after = w
+				}
+			}
+			r.Ob(id, funcName(fn), "error return", retPos(ret, fn), after == nil, true,
+				ifs(after == nil, "no index or row entry has been written when this error is returned",
+					"an error can be returned after an index/row entry was already written ("+fn.Prog.Fset.Position(posOrZero(after)).String()+"): a rejected "+name+" leaves index entries behind for a row that is not in the cache"))
+		}
+	}
+	if n < 5 {
+		r.Anchor(id, fmt.Sprintf("Create/Update/Delete: %d error returns, expected >= 5", n))
+	}
+}
+
+func posOrZero(i ssa.Instruction) token.Pos {
+	if i == nil {
+		return token.NoPos
+	}
+	return i.Pos()
+}
+
+// ruleSLOOP: in the monitor filter, what is selected for one table does not leak into the
+// next: containers written inside the per-table loop are created inside it (only the
+// result being built may be carried across iterations).
+func ruleSLOOP(p *Program, r *Reporter) {
+	const id = "S-LOOP"
+	n := 0
+	for _, name := range []string{"filter", "filter2"} {
+		fn := p.Fn("server", "monitor", name)
+		if fn == nil {
+			r.Anchor(id, "server.(*monitor)."+name)
+			continue
+		}
+		// outermost loop headers
+		var headers []*ssa.BasicBlock
+		for _, b := range fn.Blocks {
+			for _, pr := range b.Preds {
+				if b.Dominates(pr) {
+					headers = append(headers, b)
+					break
+				}
+			}
+		}
+		returned := map[ssa.Value]bool{}
+		for _, b := range fn.Blocks {
+			if ret, ok := b.Instrs[len(b.Instrs)-1].(*ssa.Return); ok {
+				for i := range ret.Results {
+					returned[retValue(ret, i)] = true
+				}
+			}
+		}
+		check := func(mu ssa.Instruction, m ssa.Value, g *ssa.Function) {
+			// resolve captured containers to their creation in fn
+			var mk ssa.Value = m
+			if ld, ok := m.(*ssa.UnOp); ok {
+				if fv, ok := ld.X.(*ssa.FreeVar); ok {
+					mk = resolveFreeVarCell(fv)
+				} else if al, ok := ld.X.(*ssa.Alloc); ok {
+					cnt := 0
+					if refs := al.Referrers(); refs != nil {
+						for _, ref := range *refs {
+							if st, ok := ref.(*ssa.Store); ok && st.Addr == al {
+								mk = st.Val
+								cnt++
+							}
+						}
+					}
+					if cnt != 1 {
+						mk = nil
+					}
+				}
+			} else if fv, ok := m.(*ssa.FreeVar); ok {
+				mk = resolveFreeVarValue(fv)
+			}
+			mm, ok := mk.(*ssa.MakeMap)
+			if !ok || mm.Parent() != fn || returned[mm] {
+				return
+			}
+			// the write happens inside some loop of fn (directly, or in a closure created in that loop)
+			var at *ssa.BasicBlock
+			if g == fn {
+				at = mu.Block()
+			} else {
+				for _, b := range fn.Blocks {
+					for _, ins := range b.Instrs {
+						if mc, ok := ins.(*ssa.MakeClosure); ok && mc.Fn == g {
+							at = b
+						}
+					}
+				}
+			}
+			if at == nil {
+				return
+			}
+			for _, h := range headers {
+				if inLoopOf(h, at) {
+					n++
+					inside := inLoopOf(h, mm.Block())
+					r.Ob(id, funcName(fn), "per-iteration container", mu.Pos(), inside, true,
+						ifs(inside, "the container written in the loop is created in the same iteration", "a container written inside the per-table loop is created outside it and is not the result: what was selected for one table is still there for the next (columns leak between tables)"))
+					return
+				}
+			}
+		}
+		for _, g := range append([]*ssa.Function{fn}, fn.AnonFuncs...) {
+			for _, b := range g.Blocks {
+				for _, ins := range b.Instrs {
+					if mu, ok := ins.(*ssa.MapUpdate); ok {
+						check(mu, mu.Map, g)
+					}
+				}
+			}
+		}
+	}
+	if n < 2 {
+		r.Anchor(id, fmt.Sprintf("filter/filter2: %d in-loop container writes, expected >= 2", n))
+	}
+}
+
+// resolveFreeVarCell: for a captured variable (by reference), the single value stored into its cell in the parent.
+func resolveFreeVarCell(fv *ssa.FreeVar) ssa.Value {
+	fn := fv.Parent()
+	parent := fn.Parent()
+	if parent == nil {
+		return nil
+	}
+	idx := -1
+	for i, x := range fn.FreeVars {
+		if x == fv {
+			idx = i
+		}
+	}
+	for _, b := range parent.Blocks {
+		for _, ins := range b.Instrs {
+			if mc, ok := ins.(*ssa.MakeClosure); ok && mc.Fn == fn && idx >= 0 && idx < len(mc.Bindings) {
+				if al, ok := mc.Bindings[idx].(*ssa.Alloc); ok {
+					var val ssa.Value
+					cnt := 0
+					if refs := al.Referrers(); refs != nil {
+						for _, ref := range *refs {
+							if st, ok := ref.(*ssa.Store); ok && st.Addr == al {
+								val = st.Val
+								cnt++
+							}
+						}
+					}
+					if cnt == 1 {
+						return val
+					}
+				}
+			}
+		}
+	}
+	return nil
+}
+
+// resolveFreeVarValue: for a variable captured by value, the bound value in the parent.
+func resolveFreeVarValue(fv *ssa.FreeVar) ssa.Value {
+	fn := fv.Parent()
+	parent := fn.Parent()
+	if parent == nil {
+		return nil
+	}
+	idx := -1
+	for i, x := range fn.FreeVars {
+		if x == fv {
+			idx = i
+		}
+	}
+	for _, b := range parent.Blocks {
+		for _, ins := range b.Instrs {
+			if mc, ok := ins.(*ssa.MakeClosure); ok && mc.Fn == fn && idx >= 0 && idx < len(mc.Bindings) {
+				return mc.Bindings[idx]
+			}
+		}
+	}
+	return nil
+}
+
+// ruleTINITREFS: before a row's reference changes are applied to the tracker's index, the
+// existing references of every row they touch have been loaded from the database.
+func ruleTINITREFS(p *Program, r *Reporter) {
+	const id = "T-INITREFS"
+	fn := p.Fn("updates", "referenceTracker", "processRowUpdate")
+	apply := p.Fn("updates", "", "applyReferenceModifications")
+	initR := p.Fn("updates", "referenceTracker", "initReferences")
+	if fn == nil || apply == nil || initR == nil {
+		r.Anchor(id, "updates.(*referenceTracker).processRowUpdate / applyReferenceModifications / initReferences")
+		return
+	}
+	n := 0
+	for _, g := range p.Reach(fn) {
+		for _, b := range g.Blocks {
+			for _, ins := range b.Instrs {
+				c, ok := ins.(*ssa.Call)
+				if !ok || c.Call.StaticCallee() != apply {
+					continue
+				}
+				if _, ok2 := c.Call.Args[0].(*ssa.UnOp); !ok2 {
+					continue
+				}
+				n++
+				// a loop calling initReferences whose header dominates this call
+				ok3 := false
+				for _, b2 := range g.Blocks {
+					for _, i2 := range b2.Instrs {
+						if c2, ok := i2.(*ssa.Call); ok && c2.Call.StaticCallee() == initR {
+							// any enclosing loop of the initReferences call that is completed before the apply
+							for _, h := range g.Blocks {
+								isHeader := false
+								for _, pr := range h.Preds {
+									if h.Dominates(pr) {
+										isHeader = true
+									}
+								}
+								if isHeader && inLoopOf(h, b2) && h.Dominates(b) && !inLoopOf(h, b) {
+									ok3 = true
+								}
+							}
+						}
+					}
+				}
+				r.Ob(id, funcName(g), "references initialised before they are modified", c.Pos(), ok3, true,
+					ifs(ok3, "every path to the in-place modification of the tracker's index passes the loop that loads the rows' existing references", "reference changes are applied to the tracker's index on a path that did not load the existing references first: referrers already in the database are forgotten at commit, and a row that is still referenced is later garbage collected"))
+			}
+		}
+	}
+	if n == 0 {
+		r.Anchor(id, "processRowUpdate never applies reference modifications")
+	}
+}
